@@ -747,7 +747,7 @@ def c11(d, run):
                   ["IndexExact", "Agree", "UsedIsSum", "MetricsLaws", "ResidentOwned", "ClearEmpties"], flavors=("sync", "async"))
     free_stage(d, run, "the real cache violates a state predicate of Cache.tla at a quiescent point (clear() with a lookup guard held by "
                "another thread / operations issued straight after clear())",
-               [("sync", "thread", 8, 40), ("async", "thread", 4, 24), ("async", "local", 6, 30)], kinds="norm", pclear=14)
+               [("sync", "thread", 8, 40), ("async", "thread", 4, 24), ("async", "local", 6, 30)], kinds="norm,norm,par", pclear=14)
     _need(d, h, ["ClrSend", "ClrStore", "ClrMetrics", "PClrTake", "PCleanItem"])
     run.nontrivial = len(getattr(run, "_distinct", ()))
     run.rule = ("non-trivial = clear() calls with 0..buffer-size items pending, the processor and a second client interleaved at every "
@@ -884,6 +884,8 @@ def c19(d, run):
     sim_stage(d, run, "real AsyncCache deviates from Cache.tla", ALL_CMP, ALL_INV, 30, 300, flavors=("async",))
     free_stage(d, run, "AsyncCache's real background tasks violate a state predicate of Cache.tla",
                [("async", "thread", 4, 24), ("async", "pool", 4, 24), ("async", "local", 4, 24), ("sync", "thread", 4, 8)])
+    free_stage(d, run, "AsyncCache under parallel clients violates a state predicate of Cache.tla (incl. wait() racing the stopping processor)",
+               [("async", "thread", 3, 12), ("async", "pool", 3, 12)], kinds="par")
     exh_stage(d, run, "real AsyncCache deviates from Cache.tla", "exh_q", ALL_CMP, ALL_INV, flavors=("async",))
     _need(d, h, ["RemSendA", "RemRet", "PStop", "LStop", "ClsStopSend", "PCleanupKey", "PVictim"])
     # same sequential histories on both flavours: observable results must be identical
